@@ -52,6 +52,11 @@ CLAIMED = {
             "Trusted: the decorator's depth bookkeeping (depth 0 = runner's own instruction, handler invocation classified by following an Error end), shuttle's serialisation of the two threads, handle names normalised by order of first appearance when executions are compared. Stubbed: harness commands, OS scheduler (mode B).",
             "deterministic simulation: fault enumeration of the halt instant over all instruction boundaries + seeded thread schedules (shuttle), prefix-refinement oracle against the unhalted run",
             "DESIGN.md section 3 C13"),
+    "C18": ("exploration",
+            "Seeded operation histories against the real kernel file system on a private tree inside a chroot jail: every operation is a real syscall sequence whose outcome depends on what earlier operations left behind (a path that was a file is now a directory, parents missing, invalid UTF-8 content), plus a genuine torn write produced by RLIMIT_FSIZE; after every step the whole tree (names, kinds, contents) is walked and compared with a file-tree model, which decides 'read what was written', 'mv = cp + rm' and 'a failing operation leaves the tree unchanged'.",
+            "Trusted: the model table of Appendix D.6 including its explicitly unconstrained corners (model adopts the disk state there); tmpfs as the file system; EIO-class faults are not injected (no seam without changing /repo).",
+            "deterministic simulation: seeded file-operation histories on a jailed real file system with path-shaped faults and a kernel-produced torn write vs file-tree reference model, full tree comparison after every step",
+            "DESIGN.md section 3 C18, Appendix D.6"),
 }
 
 NOT_YET = {k: "applicable and planned (DESIGN.md section 3) but its check is not built yet; not claimed until it is" for k in
